@@ -579,6 +579,8 @@ FUNCS = {
     "cache_fill": Func(model=lambda m, a: _model_rules(m, a), impl=lambda a: 0, direct=lambda a: direct_fill(a)),
     "threaded_history": Func(impl=lambda a: 0, direct=lambda a: direct_threaded(a)),
     "unstable_op": Func(impl=lambda a: 0, direct=lambda a: direct_unstable(a)),
+    # args: [rounds (each a list of operation specifications, one per thread), seed]
+    "race_schedule": Func(impl=lambda a: 0, direct=lambda a: direct_race(a)),
     "history_run": Func(impl=lambda a: a[1], direct=lambda a: direct_history_run(a)),
 }
 
@@ -741,6 +743,74 @@ def direct_threaded(a):
     return None
 
 
+RACE_REPLAYS = 5
+
+
+def direct_race(a):
+    """the schedule (rounds of operations started together behind a barrier) in fresh interpreters of their own, a
+       few times (thread scheduling is not reproducible): any run in which a thread's result is not the
+       single-threaded fresh value of its operation"""
+    rounds, seed = a[0], int(a[1])
+    flat = [s for r in rounds for s in r]
+    _pool()
+    _R["own"].ensure(flat)
+    ans = _R["pool"].run([{"rounds": rounds, "seed": seed + k} for k in range(RACE_REPLAYS)], True)
+    for k, x in enumerate(ans):
+        if "rres" not in x:
+            return "schedule worker failed: %s" % _short(x)
+        for ri, ti in c15hist.round_mismatches(_R["own"], rounds, x["rres"]):
+            return "run %d of %d (seed %d): thread %d of %d, all started together in a fresh interpreter%s, %s returns %s; " \
+                   "single-threaded in a fresh interpreter it returns %s (the threads ran %s)" % (
+                       k + 1, RACE_REPLAYS, seed + k, ti, len(rounds[ri]),
+                       "" if ri == 0 else " after %d earlier rounds" % ri, c15ops.op_name(rounds[ri][ti]),
+                       _short(x["rres"][ri][ti]), _short(_R["own"].value(rounds[ri][ti])),
+                       sorted(set(_names(rounds[ri]))))
+    return None
+
+
+def build_race_schedules(ctx, ops, nthreads=8):
+    """Each schedule is for ONE fresh interpreter: for every resource key (word list of a family and language,
+       coin of a hierarchy, Bip32 class, curve, codec ...) one round in which nthreads threads, released together,
+       use it -- all the same operation, or operations drawn from those that share the key.  Whatever is lazily
+       initialised on first use is initialised under contention in the first round that touches it."""
+    rng = ctx.rng
+    by_key = {}
+    for o in ops:
+        if o.threadsafe and not o.spec[0].startswith("bip38"):
+            by_key.setdefault(c15ops.resource_key(o.spec), []).append(o.spec)
+    keys = sorted(by_key)
+    out = []
+    for n in range(ctx.n(6, 40)):
+        ks = list(keys)
+        rng.shuffle(ks)
+        if n % 2 == 0:
+            # explicit-language mnemonic rounds before the automatic-language ones (which load several word lists)
+            ks.sort(key=lambda k: k.startswith("mn|") and (k.endswith("|None") or k.endswith("|shared")))
+        if ctx.quick and len(ks) > 260:
+            mn = [k for k in ks if k.startswith("mn|")]
+            rest = [k for k in ks if not k.startswith("mn|")]
+            ks = [k for k in ks if k in set(mn) | set(rng.sample(rest, 260 - min(260, len(mn))))]
+        rounds = []
+        for k in ks:
+            if rng.random() < 0.5:
+                rounds.append([rng.choice(by_key[k])] * nthreads)
+            else:
+                rounds.append([rng.choice(by_key[k]) for _ in range(nthreads)])
+        out.append((rounds, rng.randrange(1 << 30)))
+    return out, len(keys)
+
+
+def shrink_race(pool, orc, rounds, seed, ri):
+    """a failing schedule -> the failing round alone if that still fails in some of 8 fresh interpreters, else the
+       schedule up to that round, else the schedule as it is"""
+    for cand in ([rounds[ri]], rounds[:ri + 1]):
+        ans = pool.run([{"rounds": cand, "seed": seed + k} for k in range(8)], True)
+        for k, x in enumerate(ans):
+            if "rres" in x and c15hist.round_mismatches(orc, cand, x["rres"]):
+                return cand, seed + k
+    return rounds, seed
+
+
 def direct_unstable(a):
     """an operation whose value differed once but not on replay: alone in 6 interpreters and 6 times in a row"""
     spec = a[0]
@@ -880,6 +950,26 @@ def reflective(ctx):
     answers = pool.run([{"ops": h, "snap": True} for _, h in hist], thorough)
     tanswers = pool.run([{"ops": h, "threads": 4} for _, h in thr], thorough)
     t_hist = time.time() - t0
+    # (ii') schedule stream: first use under contention, each schedule in a newly started interpreter of its own
+    races, nkeys = build_race_schedules(ctx, ops)
+    ranswers = pool.run([{"rounds": r, "seed": sd} for r, sd in races], True)
+    race_calls, race_bad = 0, 0
+    for (rounds, sd), a in zip(races, ranswers):
+        if "rres" not in a:
+            _R["verdict"][_digest(rounds)] = "schedule worker failed: %s" % _short(a)
+            ctx.run("history_run", ["race", len(rounds), _digest(rounds)], "race")
+            continue
+        race_calls += sum(len(r) for r in rounds)
+        bad = c15hist.round_mismatches(orc, rounds, a["rres"])
+        if bad:
+            race_bad += 1
+            if race_bad <= 3:
+                small, sd2 = shrink_race(pool, orc, rounds, sd, bad[0][0])
+                ctx.run("race_schedule", [small, sd2], "race")        # its direct check re-runs it a few times
+        else:
+            _R["verdict"][_digest(rounds)] = ""
+            ctx.run("history_run", ["race", len(rounds), _digest(rounds)], "race")
+    t_race = time.time() - t0
     shrinker = c15hist.Shrinker(pool, orc, rules)
     calls, res_fail, snap_fail, fill_fail, crashes = 0, [], [], [], []
     shapes = {}
@@ -984,8 +1074,17 @@ def reflective(ctx):
         elif c15hist.key(small) not in reported:
             reported.add(c15hist.key(small))
             ctx.run("snapshot", [small], "shrunk:" + shape)
-    for idx, pth, other in fill_fail[:2]:
-        ctx.run("cache_fill", [hist[other][1], hist[idx][1]], "fill")
+    fseen = set()
+    for idx, pth, other in fill_fail:
+        leaf = c15hist.attr_of(pth)
+        if leaf in fseen or len(fseen) >= 2 or time.time() > deadline:
+            continue
+        fseen.add(leaf)
+        r = shrinker.fill_failure(hist[other][1], hist[idx][1], pth, budget_s=ctx.n(30, 120))
+        if r is None:
+            notes.append("cache-fill difference at %s did not reproduce" % pth)
+        else:
+            ctx.run("cache_fill", [r[0], r[1]], "fill")
     ctx.dist["reflective"] = {
         "catalogue": info, "domains": len(domains), "histories": shapes, "calls_compared": calls,
         "fresh_values": {"operations": len(specs), "each_in": "own interpreter" if thorough else
@@ -994,9 +1093,14 @@ def reflective(ctx):
         "snapshot": {"entries": snapshot_size, "cache_fills_seen": len(rules.fills),
                      "fill_rule_source": _R["rules_source"], "lazy_fields": rules.lazy},
         "differences": {"result": len(res_fail), "snapshot": len(snap_fail), "cache_fill": len(fill_fail),
+                        "race": race_bad,
                         "worker_failures": len(crashes)},
+        "race_schedules": {"interpreters": len(races), "threads_per_round": 8, "resource_keys": nkeys,
+                           "rounds": sum(len(r) for r, _ in races), "calls_compared": race_calls,
+                           "schedules_with_differences": race_bad, "switch_interval": 1e-6},
         "notes": notes, "pool": dict(pool.stats),
-        "wall_s": {"fresh": round(t_fresh, 1), "histories": round(t_hist - t_fresh, 1), "total": round(time.time() - t0, 1)},
+        "wall_s": {"fresh": round(t_fresh, 1), "histories": round(t_hist - t_fresh, 1),
+                   "race_schedules": round(t_race - t_hist, 1), "total": round(time.time() - t0, 1)},
     }
     ctx.dist["snapshot_exclusions"] = list(c15ops.SNAPSHOT_EXCLUSIONS)
     ctx.note_exhaustive("reflective catalogue of %d operations (%d of them with inputs ambiguous between languages / "
